@@ -288,12 +288,20 @@ fn c15_completion_session(rep: &mut CaseReport) {
             // the note the item stands for: the new key of a generate command, else the note whose title is the label
             let want = item["command"]["arguments"][0]["new_key"].as_str().map(|x| x.to_string()).or_else(|| {
                 let label = item["label"].as_str().unwrap_or("").to_string();
-                lib.iter().find(|(_, t)| t.lines().next().map(|l| l.trim_start_matches("# ") == label).unwrap_or(false)).map(|(k, _)| k.clone())
+                // (the label is the title behind a symbol: "🔗 My")
+                let shown = label.trim_start_matches(|c: char| !c.is_alphanumeric()).to_string();
+                lib.iter().find(|(_, t)| t.lines().next().map(|l| l.trim_start_matches("# ") == shown).unwrap_or(false)).map(|(k, _)| k.clone())
             });
+            if want.is_some() {
+                rep.count("completion_links_resolved", 1);
+            }
             if want.is_some() && target != want {
                 rep.violate("completion-link-does-not-reach-its-note", "clean", format!("completion in {}: item `{}` inserts `{}`, which resolves from `{}` to {:?}; the item stands for {:?}", from, item["label"], ins, dir, target, want), json!({"library": lib, "from": from, "item": item}));
             }
         }
+    }
+    if rep.counters.get("completion_links_resolved").copied().unwrap_or(0) == 0 {
+        rep.inconclusive.push("completion session: no link item could be matched to its note".into());
     }
     let _ = s.shutdown();
     // the same library on disk, listed by `iwe contents`: every link it prints is a destination that leads back to a note
